@@ -113,7 +113,8 @@ def run(tier):
                                                   "sfs": c["_r"]["raw"], "key": c["_r"]["raw"].get("original_instrs", "") + " @" + c["_r"]["opt"]},
                           lambda c: [c["_r"]["raw"].get("original_instrs", "") + " @" + c["_r"]["opt"]]
                           + ["bounds|" + k for k in findings.rule_kinds(c["_r"]["raw"].get("rules", []))]
-                          + (["misaligned-overlap"] if findings.misaligned_overlap(c["_r"]["raw"].get("original_instrs", "")) else []))
+                          + (["misaligned-overlap"] if findings.misaligned_overlap(c["_r"]["raw"].get("original_instrs", "")) else [])
+                          + findings.bounds_stack_classes(c["_r"]["raw"]))
     if exhaustive_ok == 0:
         raise common.MachineryError("vacuity guard: no specification was searched exhaustively")
     cov = {"states": st["states"] + wst["states"], "transitions": st["transitions"] + wst["transitions"],
